@@ -219,7 +219,7 @@ fn main() {
         );
     }
     for ty in 0..3u8 {
-        ctx.prop(&format!("generated-{}", ["i32", "i64", "i128"][ty as usize]), "rational-case", ctx.n(20_000, 3_000_000), case_for(ty), run_case);
+        ctx.prop_split(&format!("generated-{}", ["i32", "i64", "i128"][ty as usize]), "rational-case", ctx.n(20_000, 3_000_000), ctx.parts(), case_for(ty).boxed(), run_case);
     }
     ctx.finish();
 }
